@@ -1360,7 +1360,7 @@ Theorem rich_run_ok pairbrk pairmust input W lines :
 Proof.
   intros HW Hwok Hov H.
   eapply (run_ok unit (rich_segf cell_hasbreak pairbrk pairmust) (fun s => s) cell_is_space cell_hasbreak rich_residue
-            (rich_seg_ok _ _) (fun _ => True) cell_is_space).
+            (rich_seg_ok _ _ _) (fun _ => True) cell_is_space).
   - apply isbrk_isspace.
   - auto.
   - intros c r _ _ [].
@@ -1604,7 +1604,7 @@ Section RichReadable.
   Proof.
     intros H.
     destruct (run_lines unit (rich_segf cell_hasbreak pairbrk pairmust) (fun s => s) cell_is_space cell_hasbreak rich_residue
-                (rich_seg_ok _ _) (fun _ => True) cell_is_space isbrk_isspace (fun c _ h => h) rich_Hres
+                (rich_seg_ok _ _ _) (fun _ => True) cell_is_space isbrk_isspace (fun c _ h => h) rich_Hres
                 input W HW Hwok Hov rich_Hgood tt lines o H) as [F1 F2].
     split; [exact F1|]. intros Ho HW0. apply kept_nonspace. auto.
   Qed.
@@ -1619,9 +1619,9 @@ Section RichReadable.
   Proof.
     intros H.
     apply (run_cuts unit (rich_segf cell_hasbreak pairbrk pairmust) (fun s => s) cell_is_space cell_hasbreak rich_residue
-             (rich_seg_ok _ _) (fun _ => True) cell_is_space isbrk_isspace (fun c _ h => h) rich_Hres
-             input W HW Hwok Hov rich_Hgood _ _ (fun _ _ => True) (rich_consistent _ _ _)
-             (fun st p q h => h) (rich_HdB _ _ _) tt lines o I H).
+             (rich_seg_ok _ _ _) (fun _ => True) cell_is_space isbrk_isspace (fun c _ h => h) rich_Hres
+             input W HW Hwok Hov rich_Hgood _ _ (fun _ _ => True) (rich_consistent _ _ _ _)
+             (fun st p q h => h) (rich_HdB _ _ _ _) tt lines o I H).
   Qed.
 
   Lemma fls_go_total hasbreak : (forall a b, pairbrk a b <> None) ->
@@ -1636,7 +1636,7 @@ Section RichReadable.
   Theorem rich_done : (forall a b, pairbrk a b <> None) -> snd (rich_scan pairbrk pairmust W input) = Done.
   Proof.
     intros Ht. apply (run_done unit (rich_segf cell_hasbreak pairbrk pairmust) (fun s => s) cell_is_space cell_hasbreak rich_residue
-                        (rich_seg_ok _ _) input W HW).
+                        (rich_seg_ok _ _ _) input W HW).
     intros st rest _. unfold rich_segf, first_line_segment.
     destruct (fls_go cell_hasbreak pairbrk pairmust true 0 rest) as [[n br]|] eqn:E; [discriminate|].
     exfalso. eapply fls_go_total; eauto.
@@ -1916,3 +1916,106 @@ Proof.
   rewrite Z.sub_0_r. destruct (zget_in_range lines (Z.of_nat ni) ltac:(lia)) as [l Hl]. rewrite Hl.
   replace ((0 <=? Z.of_nat ni) && (Z.of_nat ni <=? MaxH)) with true by lia. unfold cell_eqb. rewrite !Z.eqb_refl. replace (zlist_eqb _ _) with true; [reflexivity|]. symmetry. unfold zlist_eqb. generalize (c_runes (cell_at restyle W l 0 (Z.of_nat nc) (blank fill))). intros r; induction r as [|x r IHr]; cbn; [reflexivity|]. rewrite Z.eqb_refl, IHr. reflexivity.
 Qed.
+
+(* ---------- Draw: the exact clause, outside the guard of the finding zero-width-overdraw ---------- *)
+Lemma cell_at_miss restyle W : forall chars col c acc, wok chars -> c < col ->
+  cell_at restyle W chars col c acc = acc.
+Proof.
+  induction chars as [|ch t IH]; intros col c acc Hw Hc; cbn [cell_at]; [reflexivity|].
+  inversion Hw; subst. destruct (W <=? col); [reflexivity|].
+  replace (col =? c) with false by lia. apply IH; auto. lia.
+Qed.
+
+Lemma cell_at_hit restyle W ch t col acc : wok t -> 0 < c_width ch -> col < W ->
+  cell_at restyle W (ch :: t) col col acc = restyle ch.
+Proof.
+  intros Hw Hp Hc. cbn [cell_at]. replace (W <=? col) with false by lia. rewrite Z.eqb_refl.
+  apply cell_at_miss; auto. lia.
+Qed.
+
+Lemma cell_at_app restyle W suf c : forall pre col acc, wok pre -> col + sumw pre < W ->
+  exists acc', cell_at restyle W (pre ++ suf) col c acc = cell_at restyle W suf (col + sumw pre) c acc'.
+Proof.
+  induction pre as [|x pre IH]; intros col acc Hw Hs.
+  - exists acc. cbn. now rewrite Z.add_0_r.
+  - inversion Hw; subst. rewrite sumw_cons in Hs. pose proof (sumw_nonneg pre H2).
+    cbn [app cell_at]. replace (W <=? col) with false by lia.
+    destruct (IH (col + c_width x) (if col =? c then restyle x else acc) H2 ltac:(lia)) as [acc' E].
+    exists acc'. rewrite E, sumw_cons. f_equal. lia.
+Qed.
+
+Lemma cell_eqb_refl2 c : cell_eqb c c = true.
+Proof. apply cell_eqb_refl. Qed.
+
+Lemma surface_ok_point restyle fill lines MaxW MaxH W H buf i c l :
+  surface_ok_b restyle fill lines MaxW MaxH (W, H, buf) = true ->
+  0 <= i < H -> 0 <= c < W -> zget lines i = Some l ->
+  exists x, zget buf (i * W + c) = Some x /\ cell_eqb x (cell_at restyle W l 0 c (blank fill)) = true.
+Proof.
+  intros Hs Hi Hc Hl. unfold surface_ok_b in Hs. apply andb_true_iff in Hs. destruct Hs as [_ Hs].
+  rewrite forallb_forall in Hs. specialize (Hs i).
+  assert (In i (map Z.of_nat (seq 0 (Z.to_nat H)))).
+  { apply in_map_iff. exists (Z.to_nat i). split; [lia|]. apply in_seq. lia. }
+  specialize (Hs H0). rewrite forallb_forall in Hs. specialize (Hs c).
+  assert (In c (map Z.of_nat (seq 0 (Z.to_nat W)))).
+  { apply in_map_iff. exists (Z.to_nat c). split; [lia|]. apply in_seq. lia. }
+  specialize (Hs H1). rewrite Hl in Hs. destruct (zget buf (i * W + c)) as [x|]; [|discriminate].
+  exists x. auto.
+Qed.
+
+Lemma cell_eqb_eq a b : cell_eqb a b = true -> a = b.
+Proof.
+  destruct a as [r1 w1 s1], b as [r2 w2 s2]. unfold cell_eqb. cbn. intros H.
+  apply andb_true_iff in H. destruct H as [H H3]. apply andb_true_iff in H. destruct H as [H1 H2].
+  assert (r1 = r2).
+  { clear - H1. unfold zlist_eqb in H1. revert r2 H1. induction r1 as [|x r IH]; intros [|y r2] H; cbn in H; try discriminate; auto.
+    apply andb_true_iff in H. destruct H as [Ha Hb]. apply Z.eqb_eq in Ha. f_equal; auto. }
+  f_equal; auto; lia.
+Qed.
+
+Theorem draw_softwrap_exact restyle fill lines MaxW MaxH :
+  0 <= MaxW < 65536 -> 0 <= MaxH < 65536 -> zlen lines < 65536 -> Forall line_ok lines ->
+  has_zero_width lines = false ->
+  exists obs, draw_softwrap restyle fill lines MaxW MaxH = Some obs /\
+              surface_exact_b restyle fill lines MaxW MaxH obs = true.
+Proof.
+  intros HMW HMH Hlen Hok Hz.
+  destruct (draw_softwrap_ok restyle fill lines MaxW MaxH HMW HMH Hlen Hok) as [[[W H] buf] [Hd Hs]].
+  exists (W, H, buf). split; [exact Hd|]. unfold surface_exact_b. rewrite Hs. cbn [andb].
+  apply forallb_forall. intros i Hi. apply in_map_iff in Hi. destruct Hi as [ni [<- Hi]]. apply in_seq in Hi.
+  assert (HH : H = Z.min (zlen lines) MaxH).
+  { unfold surface_ok_b in Hs. lia. }
+  destruct (zget_in_range lines (Z.of_nat ni) ltac:(lia)) as [l Hl]. rewrite Hl.
+  assert (Hlin : In l lines) by (eapply zget_In; eauto).
+  assert (Hlok : line_ok l) by (rewrite Forall_forall in Hok; auto).
+  assert (Hpos : forall ch, In ch l -> 0 < c_width ch).
+  { intros ch Hch. unfold has_zero_width in Hz.
+    destruct (c_width ch <=? 0) eqn:E; [|lia]. exfalso.
+    assert (existsb (existsb (fun c => c_width c <=? 0)) lines = true); [|congruence].
+    apply existsb_exists. exists l. split; auto. apply existsb_exists. exists ch. auto. }
+  destruct Hlok as [Hwl _].
+  assert (Hgen : forall suf pre, l = pre ++ suf -> shown_b restyle W buf (Z.of_nat ni) suf (sumw pre) = true).
+  { induction suf as [|ch t IHs]; intros pre El; cbn [shown_b]; [reflexivity|].
+    destruct (W <=? sumw pre) eqn:E; [reflexivity|].
+    assert (Hwpre : wok pre /\ wok (ch :: t)) by (rewrite El in Hwl; apply wok_app in Hwl; exact Hwl).
+    destruct Hwpre as [Hwp Hwt]. pose proof (sumw_nonneg pre Hwp) as Hn.
+    destruct (surface_ok_point restyle fill lines MaxW MaxH W H buf (Z.of_nat ni) (sumw pre) l Hs ltac:(lia) ltac:(lia) Hl)
+      as [x [Hx1 Hx2]].
+    rewrite Hx1. apply cell_eqb_eq in Hx2. subst x.
+    destruct (cell_at_app restyle W (ch :: t) (sumw pre) pre 0 (blank fill) Hwp ltac:(lia)) as [acc' Ea].
+    rewrite <- El in Ea. rewrite Ea, Z.add_0_l.
+    inversion Hwt; subst. rewrite cell_at_hit; auto; [|apply Hpos; rewrite El; apply in_or_app; right; left; reflexivity|lia].
+    rewrite cell_eqb_refl. cbn [andb].
+    specialize (IHs (pre ++ [ch])). rewrite sumw_app, sumw_cons, sumw_nil, Z.add_0_r in IHs.
+    apply IHs. rewrite <- app_assoc. exact El. }
+  apply (Hgen l []). reflexivity.
+Qed.
+
+(* the guard is needed: a zero-width character followed by another one is overwritten *)
+Lemma draw_zero_width_refuted :
+  let lines := [[mkCell [8203] 0 0; mkCell [97] 1 0]] in
+  has_zero_width lines = true /\
+  exists obs, draw_softwrap (fun c => c) 0 lines 5 5 = Some obs /\
+              surface_ok_b (fun c => c) 0 lines 5 5 obs = true /\
+              surface_exact_b (fun c => c) 0 lines 5 5 obs = false.
+Proof. cbn zeta. split; [reflexivity|]. eexists. split; [reflexivity|]. split; reflexivity. Qed.
